@@ -21,14 +21,14 @@ Check C05_pick_sound :
    exists r, lwt_sequence dcf rackf g keyspaces enabled connected pol rq = n :: r).
 Check C05_fallback_accepted :
   forall dcf rackf (g : ring N) keyspaces enabled connected shf pol rq,
-  sorted_strict g ->
+  sorted_weak g ->
   (forall k s, ks_lookup keyspaces k = Some s -> nts_keys_ok s) ->
   forall cho shuf, (forall site l, Permutation (shuf site l) l) ->
   plan_matches dcf rackf g keyspaces enabled connected pol rq
     (map fst (fallback dcf rackf g keyspaces enabled connected shf pol rq cho shuf)) = true.
 Check C05_fallback_properties :
   forall dcf rackf (g : ring N) keyspaces enabled connected shf pol rq,
-  sorted_strict g ->
+  sorted_weak g ->
   (forall k s, ks_lookup keyspaces k = Some s -> nts_keys_ok s) ->
   forall cho shuf, (forall site l, Permutation (shuf site l) l) ->
   let p := map fst (fallback dcf rackf g keyspaces enabled connected shf pol rq cho shuf) in
@@ -48,14 +48,14 @@ Check C05_fallback_structure :
             (uniq (concat (seg_nodes dcf rackf g enabled connected pol rq cho)))).
 Check C05_pick_accepted :
   forall dcf rackf (g : ring N) keyspaces enabled connected shf pol rq,
-  sorted_strict g ->
+  sorted_weak g ->
   (forall k s, ks_lookup keyspaces k = Some s -> nts_keys_ok s) ->
   forall cho, (forall site len, (0 < len)%nat -> (cho site len < len)%nat) ->
   pick_matches dcf rackf g keyspaces enabled connected pol rq
     (option_map fst (pick dcf rackf g keyspaces enabled connected shf pol rq cho)) = true.
 Check C05_plan_accepted :
   forall dcf rackf (g : ring N) keyspaces enabled connected shf pol rq,
-  sorted_strict g ->
+  sorted_weak g ->
   (forall k s, ks_lookup keyspaces k = Some s -> nts_keys_ok s) ->
   forall cho shuf, (forall site l, Permutation (shuf site l) l) ->
   (forall site len, (0 < len)%nat -> (cho site len < len)%nat) ->
@@ -63,7 +63,7 @@ Check C05_plan_accepted :
     (map fst (plan dcf rackf g keyspaces enabled connected shf pol rq cho shuf)) = true.
 Check C05_plan_properties :
   forall dcf rackf (g : ring N) keyspaces enabled connected shf pol rq,
-  sorted_strict g ->
+  sorted_weak g ->
   (forall k s, ks_lookup keyspaces k = Some s -> nts_keys_ok s) ->
   forall cho shuf, (forall site l, Permutation (shuf site l) l) ->
   (forall site len, (0 < len)%nat -> (cho site len < len)%nat) ->
@@ -73,7 +73,7 @@ Check C05_plan_properties :
   P_lwt dcf rackf g keyspaces enabled connected pol rq p.
 Check C05_lwt :
   forall dcf rackf (g : ring N) keyspaces enabled connected shf pol rq,
-  sorted_strict g ->
+  sorted_weak g ->
   (forall k s, ks_lookup keyspaces k = Some s -> nts_keys_ok s) ->
   forall cho shuf, (forall site l, Permutation (shuf site l) l) ->
   (forall site len, (0 < len)%nat -> (cho site len < len)%nat) ->
@@ -83,7 +83,7 @@ Check C05_lwt :
   lwt_sequence dcf rackf g keyspaces enabled connected pol rq.
 Check C05_plan_nodes :
   forall dcf rackf (g : ring N) keyspaces enabled connected shf pol rq,
-  sorted_strict g ->
+  sorted_weak g ->
   (forall k s, ks_lookup keyspaces k = Some s -> nts_keys_ok s) ->
   forall cho shuf, (forall site l, Permutation (shuf site l) l) ->
   (forall site len, (0 < len)%nat -> (cho site len < len)%nat) ->
